@@ -102,6 +102,7 @@ class Runner:
         self.native_reached = {}
         self.unexplored = 0
         self.witness_viol = {}
+        self.divergences = []
 
     def log(self, *a):
         if self.verbose:
@@ -245,21 +246,32 @@ class Runner:
                 continue
             self.native_validated += 1
             if r.get("obs_equal") is False:
-                self.harness_errors.append(
-                    "%s: symbolic/native divergence at witness %s: sym=%s native=%s"
-                    % (unit, json.dumps(w["inputs"])[:300], json.dumps(r["obs_sym"])[:300], json.dumps(r["obs"])[:300])
-                )
+                # the symbolic run observed something else than the real code at the same input: the engine's model of
+                # this path is wrong (silent concretisation); its symbolic verdict is dropped, the native one stands
+                self.note_divergence(unit, "symbolic/native divergence at witness %s: sym=%s native=%s"
+                                     % (json.dumps(w["inputs"])[:300], json.dumps(r["obs_sym"])[:300], json.dumps(r["obs"])[:300]))
             for label, detail in r["failed"]:
-                if label.startswith("witness:") or (w.get("partial") and not label.startswith(("oracle:", "harness-exception:"))):
-                    # witness-level assertion (C code in the way: json text, isoformat, ...): a failure is a concrete violation on the real code
+                if label.startswith("oracle:"):
+                    self.harness_errors.append("%s: oracle disagreement: %s at witness %s %s" % (unit, label, json.dumps(w["inputs"])[:300], detail[-300:]))
+                elif label.startswith("harness-exception:"):
+                    self.harness_errors.append("%s: %s at witness %s %s" % (unit, label, json.dumps(w["inputs"])[:300], detail[-300:]))
+                else:
+                    # the native twin is the ground truth: an assertion that fails on the real code at a concrete input is a
+                    # violation, whether the assertion is witness-level only or the symbolic side believed it proved
                     v = {"label": label, "detail": detail, "inputs": w["inputs"]}
                     key = (unit, label)
                     if len(self.witness_viol.setdefault(key, [])) < 3:
                         self.witness_viol[key].append(v)
                         self.violations.append((unit, v, self.write_replay(unit, v, r)))
-                    continue
-                kind = "oracle disagreement" if label.startswith("oracle:") else "assertion proved symbolically fails natively"
-                self.harness_errors.append("%s: %s: %s at witness %s %s" % (unit, kind, label, json.dumps(w["inputs"])[:300], detail[-300:]))
+                    if not label.startswith("witness:") and not w.get("partial"):
+                        self.note_divergence(unit, "assertion %s held symbolically but fails natively at %s" % (label, json.dumps(w["inputs"])[:300]))
+
+    def note_divergence(self, unit, text):
+        self.divergences.append("%s: %s" % (unit, text))
+        st = self.stats.get(unit)
+        if st is not None:
+            st["why"]["engine model divergence (verdict of the path dropped)"] = st["why"].get("engine model divergence (verdict of the path dropped)", 0) + 1
+            st["inconclusive"] += 1
 
     def on_violation(self, unit, v, r):
         failed = [l for l, _ in r["failed"]]
@@ -271,10 +283,8 @@ class Runner:
         elif any(l == v["label"] for l, _ in map(tuple, r["excused"])):
             pass
         else:
-            self.harness_errors.append(
-                "%s: counterexample for %s does not replay on the real code (encoding or stub wrong): %s ; native failed=%s"
-                % (unit, v["label"], json.dumps(v["inputs"])[:400], failed)
-            )
+            # the solver's counterexample does not reproduce on the real code: the encoding of this path is wrong, not the repository
+            self.note_divergence(unit, "counterexample for %s does not replay on the real code: %s ; native failed=%s" % (v["label"], json.dumps(v["inputs"])[:400], failed))
 
     def write_replay(self, unit, v, r):
         d = os.path.join(ROOT, "replays", self.prop)
@@ -338,6 +348,7 @@ class Runner:
                 "stubs": sorted(self.stubs),
                 "known_findings_active": [e["id"] for e in self.active_known],
                 "harness_errors": self.harness_errors[:20],
+                "engine_model_divergences": self.divergences[:20],
                 "repo": repo_root(),
             },
             "assumptions": list(getattr(self.mod, "ASSUMPTIONS", []))
@@ -364,6 +375,8 @@ class Runner:
             if u["why"]:
                 print("  note %s: %s" % (n, json.dumps(u["why"])[:300]))
         code = EXIT_OK
+        for d in self.divergences[:10]:
+            print("ENGINE-NOTE: " + d.replace("\n", " | ")[:700], flush=True)
         if self.harness_errors:
             for e in self.harness_errors[:20]:
                 print("HARNESS-ERROR: " + e.replace("\n", " | ")[:900], flush=True)
